@@ -74,6 +74,7 @@ static CO_ERR COTParaRestoreRead(struct CO_OBJ_T *obj, struct CO_NODE_T *node, v
     if (CO_GET_SUB(obj->Key) == 0) {
         result = uint8->Read(obj, node, buffer, size);
     } else {
+        ASSERT_EQU_ERR(size, COT_ENTRY_SIZE, CO_ERR_BAD_ARG);
         pg = (CO_PARA *)(obj->Data);
         if (pg->Default != NULL) {
             *(uint32_t *)buffer = (uint32_t)1;
@@ -104,6 +105,7 @@ static CO_ERR COTParaRestoreWrite(struct CO_OBJ_T *obj, struct CO_NODE_T *node, 
         result = uint8->Write(obj, node, buffer, size);
     } else {
         /* check restore signature */
+        ASSERT_EQU_ERR(size, COT_ENTRY_SIZE, CO_ERR_BAD_ARG);
         value = *((uint32_t *)buffer);
         if (value != CO_PARA_RESTORE_SIG) {
             return (CO_ERR_TYPE_WR);
